@@ -39,6 +39,25 @@ theorem abs_clean (cwd : List String) (p : String) : ∀ s ∈ absPath cwd p, Cl
   unfold absPath
   split <;> exact normSegs_clean _ [] (by intro s hs; cases hs)
 
+/-- on segments that are already clean, normalisation does nothing -/
+theorem normSegs_of_clean : ∀ (ss acc : List String), (∀ s ∈ ss, Clean s) → normSegs acc ss = acc.reverse ++ ss
+  | [], acc, _ => by simp [normSegs]
+  | x :: xs, acc, h => by
+    have hx := h x (mem_cons_self ..)
+    have h1 : ¬ (x = "" ∨ x = ".") := fun e => e.elim hx.1 hx.2.1
+    have ih := normSegs_of_clean xs (x :: acc) (fun s hs => h s (mem_cons_of_mem _ hs))
+    simp only [normSegs, h1, hx.2.2, if_false, ih, reverse_cons, append_assoc, singleton_append]
+
+/-- the absolute directory a store keeps is a fixed point of the normalisation: making it absolute again - from any
+working directory, as a store built later from the kept directory would - gives the same directory (on segments) -/
+theorem abs_idempotent (cwd : List String) (p : String) (acc : List String) :
+    normSegs acc (absPath cwd p) = acc.reverse ++ absPath cwd p :=
+  normSegs_of_clean _ acc (abs_clean cwd p)
+
+/-- a `..` never climbs above the root: the result is the same with any number of leading `..` -/
+theorem dotdot_at_root (ss : List String) : normSegs [] (".." :: ss) = normSegs [] ss := by
+  simp [normSegs]
+
 theorem abs_ignores_cwd (c c' : List String) (p : String) (h : p.startsWith "/" = true) :
     absPath c p = absPath c' p := by
   simp [absPath, h]
